@@ -153,6 +153,23 @@ pub trait DynIter {
     fn next(&mut self) -> Option<u128>;
     fn next_back(&mut self) -> Option<Option<u128>>;
     fn len(&self) -> Option<usize>;
+    fn size_hint(&self) -> (usize, Option<usize>);
+    /// Consumes the rest through `Iterator::fold` (internal iteration: the path `for_each`, `sum`, `count` take).
+    fn fold_rest(self: Box<Self>) -> Vec<u128>;
+}
+
+macro_rules! dyn_iter_common {
+    () => {
+        fn size_hint(&self) -> (usize, Option<usize>) {
+            self.0.size_hint()
+        }
+        fn fold_rest(self: Box<Self>) -> Vec<u128> {
+            self.0.fold(Vec::new(), |mut v, x| {
+                v.push(x);
+                v
+            })
+        }
+    };
 }
 
 struct FwdOnly<I>(I);
@@ -166,6 +183,7 @@ impl<I: Iterator<Item = u128>> DynIter for FwdOnly<I> {
     fn len(&self) -> Option<usize> {
         None
     }
+    dyn_iter_common!();
 }
 
 struct FwdExact<I>(I);
@@ -179,6 +197,7 @@ impl<I: Iterator<Item = u128> + ExactSizeIterator> DynIter for FwdExact<I> {
     fn len(&self) -> Option<usize> {
         Some(self.0.len())
     }
+    dyn_iter_common!();
 }
 
 struct Full<I>(I);
@@ -192,6 +211,7 @@ impl<I: Iterator<Item = u128> + ExactSizeIterator + DoubleEndedIterator> DynIter
     fn len(&self) -> Option<usize> {
         Some(self.0.len())
     }
+    dyn_iter_common!();
 }
 
 /// Adapter so that `ExactSizeIterator`/`DoubleEndedIterator` survive the element conversion
